@@ -2607,6 +2607,97 @@ fn c16_footer_handle_beyond_file(dir: PathBuf) -> ScenFut<'static> {
     })
 }
 
+/// The index handle in a table's footer is rewritten to name another valid, checksummed block of
+/// the same file (the first index partition instead of the top-level index).
+fn c16_footer_redirected_to_valid_block(dir: PathBuf) -> ScenFut<'static> {
+    Box::pin(async move {
+        fn get_varint(buf: &[u8]) -> Option<(u64, usize)> {
+            let (mut v, mut shift) = (0u64, 0);
+            for (i, b) in buf.iter().enumerate().take(10) {
+                v |= ((b & 0x7f) as u64) << shift;
+                if b & 0x80 == 0 {
+                    return Some((v, i + 1));
+                }
+                shift += 7;
+            }
+            None
+        }
+        fn put_varint(mut v: u64, out: &mut Vec<u8>) {
+            while v >= 0x80 {
+                out.push((v as u8) | 0x80);
+                v >>= 7;
+            }
+            out.push(v as u8);
+        }
+        let cfg = Cfg { flush_on_close: true, block_size: 512, index_partition_size: 128, compression: vec![], cache: 0, max_memtable_size: 4 << 20, ..base_cfg() };
+        let n = 2000u32;
+        let t = cfg.open(&dir).map_err(|e| e.to_string())?;
+        for chunk in (0..n).collect::<Vec<_>>().chunks(200) {
+            let mut tx = t.begin_with_mode(Mode::WriteOnly).map_err(|e| e.to_string())?;
+            for i in chunk {
+                tx.set(format!("key-{i:06}").as_bytes(), format!("value-{i:06}-{}", "x".repeat(40)).as_bytes()).map_err(|e| e.to_string())?;
+            }
+            tx.commit().await.map_err(|e| e.to_string())?;
+        }
+        close(t).await;
+        let mut ssts: Vec<_> = std::fs::read_dir(dir.join("sstables")).map_err(|e| e.to_string())?.flatten().map(|e| e.path()).filter(|p| p.extension().map(|x| x == "sst").unwrap_or(false)).collect();
+        if ssts.len() != 1 {
+            return Err(format!("harness: expected one table file, found {}", ssts.len()));
+        }
+        let sst = ssts.pop().unwrap();
+        let mut bytes = std::fs::read(&sst).map_err(|e| e.to_string())?;
+        let lay = "harness: footer / index layout not understood";
+        let f = bytes.len() - 50;
+        let mut p = f + 2;
+        for _ in 0..2 {
+            p += get_varint(&bytes[p..]).ok_or(lay)?.1;
+        }
+        let (top_off, n1) = get_varint(&bytes[p..]).ok_or(lay)?;
+        // first entry of the top-level index block: shared, non_shared, value_len, key, value = handle of partition 1
+        let b = &bytes[top_off as usize..];
+        let (shared, a0) = get_varint(b).ok_or(lay)?;
+        let (klen, a1) = get_varint(&b[a0..]).ok_or(lay)?;
+        let (vlen, a2) = get_varint(&b[a0 + a1..]).ok_or(lay)?;
+        if shared != 0 {
+            return Err(lay.into());
+        }
+        let v = &b[a0 + a1 + a2 + klen as usize..][..vlen as usize];
+        let (p1_off, m) = get_varint(v).ok_or(lay)?;
+        let (p1_size, _) = get_varint(&v[m..]).ok_or(lay)?;
+        let _ = n1;
+        let mut enc = vec![];
+        put_varint(p1_off, &mut enc);
+        put_varint(p1_size, &mut enc);
+        if p + enc.len() > f + 42 || p1_off >= top_off {
+            return Err(lay.into());
+        }
+        bytes[p..f + 42].fill(0);
+        bytes[p..p + enc.len()].copy_from_slice(&enc);
+        std::fs::write(&sst, &bytes).map_err(|e| e.to_string())?;
+        let t = match cfg.open(&dir) {
+            Ok(t) => t,
+            Err(_) => return Ok(()), // detected at open
+        };
+        let (mut absent, mut wrong, mut errors, mut ok) = (0, 0, 0, 0);
+        for i in 0..n {
+            let want = format!("value-{i:06}-{}", "x".repeat(40)).into_bytes();
+            match get1(&t, format!("key-{i:06}").as_bytes()) {
+                Err(_) => errors += 1,
+                Ok(Some(v)) if v == want => ok += 1,
+                Ok(Some(_)) => wrong += 1,
+                Ok(None) => absent += 1,
+            }
+        }
+        close(t).await;
+        if absent > 0 || wrong > 0 {
+            return Err(format!(
+                "2000 keys in one table; the index handle in the table's footer (50 bytes that no checksum covers) rewritten to name the first index partition block - a valid, checksummed block of the same file - instead of the top-level index: the store opens; of 2000 committed keys {absent} are reported absent and {wrong} return a wrong value ({errors} errors, {ok} correct)"
+            ));
+        }
+        Ok(())
+    })
+}
+
 fn c16_filter_block_unchecked(dir: PathBuf) -> ScenFut<'static> {
     Box::pin(async move {
         use surrealkv::verif::{verif_table_write, VerifEntry, VerifTableHandle};
@@ -3342,6 +3433,12 @@ pub fn all() -> Vec<Scenario> {
             property: "C16",
             title: "offsets and sizes of the footer's block handles set beyond the end of the table file",
             run: c16_footer_handle_beyond_file,
+        },
+        Scenario {
+            id: "C16-footer-redirected-to-valid-block",
+            property: "C16",
+            title: "the footer's index handle rewritten to name another valid block of the same table",
+            run: c16_footer_redirected_to_valid_block,
         },
         Scenario {
             id: "C16-filter-block-unchecked",
